@@ -683,10 +683,21 @@ class Router(Monitor):
             n_dangling = self.dangling(hops)
             if sem.get("bad_mode") in ("empty",) or n_dangling != 1:
                 probs.append("route with %d dangling outputs was accepted" % n_dangling)
+            if router_clean and entry_ok and not probs:
+                # whatever the route looks like: an accepted route leaves nothing behind in a router that started empty
+                for aid in sorted(set(a[1] for h in hops for a in h)):
+                    if post.get(w.router, aid) != 0 and not (rcp == w.router and aid == final[1]):
+                        probs.append("router keeps %d of %s" % (post.get(w.router, aid), aid))
+                if not all(pairs):
+                    probs.append("a route with a hop for which no pair is registered was executed")
             if distinct and router_clean and entry_ok and not probs:
                 acc.count("c13_precondition_met")
                 if quote is None:
                     probs.append("route executed but the router's simulation of it failed in the same state")
+                elif rcp == w.router:
+                    # the router itself is the designated recipient: it must end up holding exactly the quote
+                    if post.get(w.router, final[1]) != quote:
+                        probs.append("recipient is the router: it holds %d of the final asset, quoted %d" % (post.get(w.router, final[1]), quote))
                 elif not special_rcp:
                     if d_final + paid != quote:
                         probs.append("recipient got %d (+%d own payment) but the router quoted %d" % (d_final, paid, quote))
@@ -719,6 +730,8 @@ class Router(Monitor):
         w = self.w
         if st.op["kind"] != "route" or not hops:
             return "badshape"
+        if st.op["sem"].get("spelling"):
+            return "non_normalised_address"   # the router may refuse an address that is not written in normal form
         if not all(pairs) or len(set(p.addr for p in pairs)) != len(pairs):
             return "pairs"
         if self.dangling(hops) != 1 or entry != hops[0][0]:
